@@ -33,9 +33,32 @@ def blossom(row, ts):
     return cur[0]
 
 
+def _split(row, t):
+    """de Casteljau triangle at t: control points of the restriction to [0,t] and to [t,1]"""
+    cur = list(row)
+    left, right = [cur[0]], [cur[-1]]
+    while len(cur) > 1:
+        cur = [(1 - t) * cur[i] + t * cur[i + 1] for i in range(len(cur) - 1)]
+        left.append(cur[0])
+        right.append(cur[-1])
+    return left, right[::-1]
+
+
 def specialize_exact(row, a, b):
+    """control points of sigma -> B(a + (b - a) sigma): blossom values b(a^(n-i), b^i).  Degree <= 12: straight from the
+    definition (O(n^3)); above: two exact de Casteljau splits (O(n^2)), the same numbers (checked against the definition in
+    harness/tools/selftest_exact.py)"""
     n = len(row) - 1
-    return [blossom(row, [a] * (n - i) + [b] * i) for i in range(n + 1)]
+    a, b = Fr(a), Fr(b)
+    if n <= 12:
+        return [blossom(row, [a] * (n - i) + [b] * i) for i in range(n + 1)]
+    if b != 0:
+        left, _ = _split(row, b)                  # [0, b]
+        return _split(left, a / b)[1]             # [a, b] = [a/b, 1] of it
+    if a != 1:
+        _, right = _split(row, a)                 # [a, 1]
+        return _split(right, (b - a) / (1 - a))[0]
+    return list(row)[::-1]                        # [1, 0]
 
 
 def elevate_exact(row):
